@@ -1165,3 +1165,93 @@ func freshResultRule(R string) RuleFunc {
 		}
 	}
 }
+
+// unnamedOnlyRule: AddUnnamedTypes copies unnamed types only.
+func unnamedOnlyRule(R string) RuleFunc {
+	return func(c *core.Ctx) {
+		c.Rule(R, "loader.AddUnnamedTypes moves into the root only the types whose generated name starts with `#` (the rule-sets and shortcuts of a registered type): every name it passes to rootSchema.AddType comes from a work list that is filled under a test of the first character against '#' (or the AddType call itself is under that test). Copying the named types as well makes the root resolve names that were never registered on it and replaces root types of the same name - Check() then depends on what was registered on OTHER schema objects")
+		c.Floor(R, 1)
+		const fn = "notations/jschema/loader.AddUnnamedTypes"
+		d := c.P.FindDecl(fn)
+		if d == nil {
+			c.Unresolved(R, fn)
+			return
+		}
+		hashTest := func(stack []ast.Node) bool {
+			for _, a := range stack {
+				if ifs, ok := a.(*ast.IfStmt); ok {
+					s := core.ExprStr(ifs.Cond)
+					if strings.Contains(s, "'#'") || strings.Contains(s, `"#"`) {
+						return true
+					}
+				}
+			}
+			return false
+		}
+		// work lists filled only under the test
+		filtered := map[string]bool{}
+		unfiltered := map[string]bool{}
+		var stack []ast.Node
+		var adds []struct {
+			call  *ast.CallExpr
+			under bool
+		}
+		ast.Inspect(d.Decl.Body, func(n ast.Node) bool {
+			if n == nil {
+				stack = stack[:len(stack)-1]
+				return true
+			}
+			stack = append(stack, n)
+			switch x := n.(type) {
+			case *ast.AssignStmt:
+				if len(x.Lhs) == 1 && len(x.Rhs) == 1 {
+					if call, ok := x.Rhs[0].(*ast.CallExpr); ok && core.ExprStr(call.Fun) == "append" && len(call.Args) == 2 && core.ExprStr(call.Args[0]) == core.ExprStr(x.Lhs[0]) {
+						name := core.ExprStr(x.Lhs[0])
+						if hashTest(stack) {
+							filtered[name] = true
+						} else {
+							unfiltered[name] = true
+						}
+					}
+				}
+			case *ast.CallExpr:
+				if strings.HasSuffix(core.FullName(core.Callee(d.Pkg, x)), "ISchema).AddType") {
+					adds = append(adds, struct {
+						call  *ast.CallExpr
+						under bool
+					}{x, hashTest(stack)})
+				}
+			}
+			return true
+		})
+		if len(adds) == 0 {
+			c.Bad(R, fn+":AddType", c.P.Pos(d.Decl.Pos()), "AddUnnamedTypes adds types to the root", "no AddType call found")
+			return
+		}
+		for _, a := range adds {
+			ok := a.under
+			why := "under a test of the name against '#'"
+			if !ok {
+				// the name argument ranges over a filtered work list
+				arg := core.ExprStr(a.call.Args[0])
+				ast.Inspect(d.Decl.Body, func(n ast.Node) bool {
+					rs, isR := n.(*ast.RangeStmt)
+					if !isR || rs.Value == nil || core.ExprStr(rs.Value) != arg {
+						return true
+					}
+					list := core.ExprStr(rs.X)
+					if filtered[list] && !unfiltered[list] && rs.Pos() < a.call.Pos() && a.call.End() <= rs.End() {
+						ok = true
+						why = "the name ranges over " + list + ", which is filled only under a test against '#'"
+					}
+					return true
+				})
+			}
+			if ok {
+				c.OKd(R, fn+":AddType", c.P.Pos(a.call.Pos()), "rootSchema.AddType("+core.ExprStr(a.call.Args[0])+", ...) in AddUnnamedTypes", why)
+			} else {
+				c.Bad(R, fn+":AddType", c.P.Pos(a.call.Pos()), "rootSchema.AddType("+core.ExprStr(a.call.Args[0])+", ...) in AddUnnamedTypes", "every type of the registered type is copied into the root, named ones included: the root's own type of that name is replaced, and names never registered on the root resolve")
+			}
+		}
+	}
+}
